@@ -7,6 +7,31 @@ import AgVerif.Proof.Bits
 namespace AgVerif.JavaString
 open AgVerif.Spec.JavaLex AgVerif.Bits
 
+/-! ### the generated literals of `string()` (re-checked whenever the code's literals change) -/
+
+open AgVerif.Gen.JString in
+theorem uEscape_def (i : Nat) : uEscape i = [0x5c, 0x75] ++ hexDigits (i >>> 12) ++ hexDigits ((i >>> 8) &&& 0x0F)
+    ++ hexDigits ((i >>> 4) &&& 0x0F) ++ hexDigits (i &&& 0x0F) := rfl
+
+theorem units_def (i : Nat) : units i =
+    if i ≥ 0x10000 then [0xD800 + ((i - 0x10000) >>> 10), 0xDC00 + ((i - 0x10000) &&& 0x3FF)] else [i] := rfl
+
+open AgVerif.Gen.JString in
+theorem named_iff (c : Nat) : named.contains c = true ↔ (c = 0x0d ∨ c = 0x0a ∨ c = 0x09) := by
+  simp [named]
+
+open AgVerif.Gen.JString in
+theorem escChar_def (c : Nat) : escChar c =
+    if 0x20 ≤ c ∧ c < 0x7f then
+      if c = 0x27 ∨ c = 0x22 ∨ c = 0x5c then [0x5c, c] else [c]
+    else if c ≤ 0x7f ∧ (c = 0x0d ∨ c = 0x0a ∨ c = 0x09) then pyUnicodeEscape c
+    else (units c).flatMap uEscape := by
+  unfold escChar
+  simp only [named_iff]
+  rfl
+
+theorem escape_def (s : List Nat) : escape s = [0x22] ++ s.flatMap escChar ++ [0x22] := rfl
+
 /-! ### hexadecimal digits -/
 
 theorem hexDigits_lt16 (n : Nat) (h : n < 16) : hexDigits n = [hexNib n] := by
@@ -21,7 +46,7 @@ theorem and_3FF (x : Nat) : x &&& 0x3FF = x % 1024 := by
 /-- for a UTF-16 unit the four appends are four hex digits -/
 theorem uEscape_unit (u : Nat) (h : u < 0x10000) :
     uEscape u = [0x5c, 0x75, hexNib (u / 4096), hexNib (u / 256 % 16), hexNib (u / 16 % 16), hexNib (u % 16)] := by
-  unfold uEscape
+  rw [uEscape_def]
   simp only [Nat.shiftRight_eq_div_pow, and_0F]
   rw [hexDigits_lt16 _ (by omega : u / 2 ^ 12 < 16), hexDigits_lt16 _ (Nat.mod_lt _ (by omega)),
     hexDigits_lt16 _ (Nat.mod_lt _ (by omega)), hexDigits_lt16 _ (Nat.mod_lt _ (by omega))]
@@ -41,7 +66,7 @@ theorem hexNib_ne_u (a : Nat) (h : a < 16) : hexNib a ≠ LOWER_U := by
 /-! ### model units = specification units -/
 
 theorem units_eq_utf16Char (c : Nat) : units c = utf16Char c := by
-  unfold units utf16Char
+  rw [units_def]; unfold utf16Char
   by_cases h : c < 0x10000
   · have : ¬ c ≥ 0x10000 := by omega
     simp [h, this]
@@ -90,7 +115,7 @@ theorem translate_units (us r : List Nat) (h : ∀ u ∈ us, u < 0x10000) :
 
 theorem translate_escChar (c : Nat) (hc : IsCodePoint c) (r : List Nat) :
     translate (.norm true) (escChar c ++ r) = (translate (.norm true) r).map (escCharT c ++ ·) := by
-  unfold escChar escCharT
+  rw [escChar_def]; unfold escCharT
   by_cases h1 : 0x20 ≤ c ∧ c < 0x7f
   · simp only [h1, and_self, if_true]
     by_cases h2 : c = 0x27 ∨ c = 0x22 ∨ c = 0x5c
@@ -188,7 +213,8 @@ theorem strChars_body (s r : List Nat) :
 
 theorem lex_escape_append (s rest : List Nat) (hs : ∀ c ∈ s, IsCodePoint c) :
     javaLexPrefix (escape s ++ rest) = (unicodeTranslate rest).map (fun t => (utf16 s, t)) := by
-  unfold javaLexPrefix unicodeTranslate escape
+  rw [escape_def]
+  unfold javaLexPrefix unicodeTranslate
   have e : [0x22] ++ s.flatMap escChar ++ [0x22] ++ rest
       = 0x22 :: (s.flatMap escChar ++ (0x22 :: rest)) := by simp
   rw [e]
@@ -212,7 +238,7 @@ theorem hexNib_lt (a : Nat) (h : a < 16) : hexNib a < 0x80 := by
   unfold hexNib; split <;> omega
 
 theorem escChar_ascii (c : Nat) (hc : IsCodePoint c) : ∀ x ∈ escChar c, x < 0x80 := by
-  unfold escChar
+  rw [escChar_def]
   by_cases h1 : 0x20 ≤ c ∧ c < 0x7f
   · simp only [h1, and_self, if_true]
     split <;> simp <;> omega
@@ -237,7 +263,7 @@ theorem escChar_ascii (c : Nat) (hc : IsCodePoint c) : ∀ x ∈ escChar c, x < 
 
 theorem escape_ascii' (s : List Nat) (hs : ∀ c ∈ s, IsCodePoint c) : ∀ x ∈ escape s, x < 0x80 := by
   intro x hx
-  unfold escape at hx
+  rw [escape_def] at hx
   simp only [List.mem_append, List.mem_cons, List.not_mem_nil, or_false, List.mem_flatMap] at hx
   rcases hx with (h | ⟨c, hc, hx⟩) | h
   · omega
